@@ -191,6 +191,21 @@ func (n *Node) AllSigned() []Vote {
 	return vs
 }
 
+// WouldHalt reports whether BeginBlock with this request would halt the application
+// (which calls os.Exit); decided by the node's own logic through the verif hook.
+func (n *Node) WouldHalt(req BlockReq) bool {
+	var votes []abci.VoteInfo
+	for _, v := range req.Votes {
+		addr := v.Addr
+		if !v.Raw {
+			addr = TmAddr(v.Key)
+		}
+		a := addr
+		votes = append(votes, abci.VoteInfo{Validator: abci.Validator{Address: a[:], Power: 1}, SignedLastBlock: v.Signed})
+	}
+	return n.App.VerifHaltDecision(req.Height, votes)
+}
+
 // BeginBlock executes BeginBlock. Returns true if the call panicked.
 func (n *Node) BeginBlock(req BlockReq) bool {
 	n.CurHeight = req.Height
